@@ -2,9 +2,20 @@
 # usage: run_check.sh <property id> <quick|thorough>
 # Rebuilds nothing of /repo ahead of time: vcheck loads /repo's current working
 # tree (go/packages + go/ssa) on every run.
+# A wall-clock limit (quick 40 min, thorough 3 h; VERIF_TIMEOUT overrides, seconds) turns a run
+# that does not finish — a changed tree can multiply the paths of a harness — into exit 2.
 export GOFLAGS=-mod=mod GOPROXY=off GOSUMDB=off GOTOOLCHAIN=local
 cd /verif || exit 2
 if [ ! -x /verif/bin/vcheck ] || [ -n "$(find /verif/gosx -newer /verif/bin/vcheck -name '*.go' 2>/dev/null | head -1)" ]; then
   (cd /verif/gosx && go build -o /verif/bin/vcheck ./cmd/vcheck) || exit 2
 fi
-exec /verif/bin/vcheck run --tier "${2:-quick}" "$1"
+tier="${2:-quick}"
+limit=2400
+[ "$tier" = thorough ] && limit=10800
+timeout -k 10 "${VERIF_TIMEOUT:-$limit}" /verif/bin/vcheck run --tier "$tier" "$1"
+rc=$?
+if [ $rc -eq 124 ] || [ $rc -eq 137 ]; then
+  echo "INCONCLUSIVE: $1 $tier did not finish within the wall-clock limit (no verdict)"
+  exit 2
+fi
+exit $rc
